@@ -67,25 +67,31 @@ Definition hexval (c : N) : option N :=
   else if (65 <=? c) && (c <=? 70) then Some (c - 55)
   else None.
 
-(* decode one physical line (without its CRLF); returns decoded bytes and whether the
-   line ended in a soft break.  Trailing white space on a line is transport padding. *)
+(* decode one physical line (without its CRLF, transport padding already removed); returns the
+   decoded bytes and whether the line ended in a soft line break ("=" as its last character).
+   "=XY" (upper-case hex) is the byte 16*X+Y; any other use of "=" is malformed. *)
 Fixpoint qp_dec_line (s : bytes) : option (bytes * bool) :=
   match s with
   | [] => Some ([], false)
-  | 61 :: [] => Some ([], true)
-  | 61 :: h :: l :: t =>
-      match hexval h, hexval l, qp_dec_line t with
-      | Some a, Some b, Some (r, soft) => Some (a * 16 + b :: r, soft)
-      | _, _, _ => None
-      end
-  | 61 :: _ => None
   | b :: t =>
-      match qp_dec_line t with
-      | Some (r, soft) => Some (b :: r, soft)
-      | None => None
-      end
+      if b =? 61 then
+        match t with
+        | [] => Some ([], true)
+        | h :: l :: t' =>
+            match hexval h, hexval l, qp_dec_line t' with
+            | Some x, Some y, Some (r, soft) => Some (x * 16 + y :: r, soft)
+            | _, _, _ => None
+            end
+        | _ :: [] => None
+        end
+      else
+        match qp_dec_line t with
+        | Some (r, soft) => Some (b :: r, soft)
+        | None => None
+        end
   end.
 
+(* white space at the end of an encoded line is transport padding (RFC 2045 6.7 rule 3) *)
 Fixpoint strip_trailing_ws (s : bytes) : bytes :=
   match s with
   | [] => []
@@ -96,23 +102,58 @@ Fixpoint strip_trailing_ws (s : bytes) : bytes :=
       end
   end.
 
-(* split a CRLF-terminated text into lines; [cur] accumulates the current line reversed *)
-Fixpoint split_crlf_acc (cur : bytes) (s : bytes) : list bytes :=
-  match s with
-  | [] => match cur with [] => [] | _ => [rev cur] end
-  | 13 :: 10 :: t => rev cur :: split_crlf_acc [] t
-  | b :: t => split_crlf_acc (b :: cur) t
+Definition cons_hd (b : N) (ls : list bytes) : list bytes :=
+  match ls with
+  | [] => [[b]]                               (* unreachable: split_crlf never returns [] *)
+  | l :: rest => (b :: l) :: rest
   end.
-Definition split_crlf (s : bytes) : list bytes := split_crlf_acc [] s.
 
+(* strings.Split(s, "\r\n"): the pieces between CRLFs; never empty; the LAST piece is the text
+   after the last CRLF (empty when the text ends in CRLF), i.e. the unterminated final line *)
+Fixpoint split_crlf (s : bytes) : list bytes :=
+  match s with
+  | [] => [[]]
+  | b :: t =>
+      match t with
+      | c :: t' => if (b =? 13) && (c =? 10) then [] :: split_crlf t' else cons_hd b (split_crlf t)
+      | [] => [[b]]
+      end
+  end.
+
+(* every piece but the last was terminated by CRLF: that CRLF is a hard line break of the content
+   unless the line ended in a soft line break.  The last piece has no line break after it, so
+   nothing is appended (a text ending in CRLF has an empty last piece). *)
 Fixpoint qp_dec_lines (ls : list bytes) : option bytes :=
   match ls with
   | [] => Some []
   | l :: rest =>
       match qp_dec_line (strip_trailing_ws l), qp_dec_lines rest with
-      | Some (d, soft), Some r => Some (d ++ (if soft then [] else crlf) ++ r)
+      | Some (d, soft), Some r =>
+          Some (d ++ (match rest with [] => [] | _ :: _ => if soft then [] else crlf end) ++ r)
       | _, _ => None
       end
   end.
 
 Definition qp_decode (s : bytes) : option bytes := qp_dec_lines (split_crlf s).
+
+(* ---- the text the caller supplied, with canonical line breaks (C01: quoted-printable text is
+   compared modulo LF -> CRLF): every line break, written CRLF or lone LF, becomes CRLF.
+   An LF emits CRLF; a CR directly before an LF is the first half of that line break. ---- *)
+Definition next_is_lf (t : bytes) : bool :=
+  match t with c :: _ => c =? 10 | [] => false end.
+
+Fixpoint canon_crlf (s : bytes) : bytes :=
+  match s with
+  | [] => []
+  | b :: t =>
+      if b =? 10 then 13 :: 10 :: canon_crlf t
+      else if (b =? 13) && next_is_lf t then canon_crlf t
+      else b :: canon_crlf t
+  end.
+
+(* text whose line breaks are CRLF or LF: every CR is immediately followed by LF *)
+Fixpoint no_bare_cr (s : bytes) : bool :=
+  match s with
+  | [] => true
+  | b :: t => (if b =? 13 then next_is_lf t else true) && no_bare_cr t
+  end.
